@@ -194,9 +194,36 @@ pub(crate) fn c17_valid_monotone_scalars() {
     core::mem::forget((sup, sub));
 }
 
-// (validity monotonicity on *list* values is not decided: is_valid_value on heap-stored list
-//  elements makes every element's variant symbolic for CBMC and the recursion does not finish
-//  within 20 minutes even for depth-1 types.)
+// @harness c17_valid_monotone_lists tier=thorough heavy=1 kind=bounded bound="types of depth <= 2; list values of length <= 2, nesting <= 2, elements null/Int64" timeout=900 unwindset="!memcmp.0=8"
+// @ob for list values [], [x], [x, y], [[x]], [[x], null] with x, y in {null, Int64}: sub.is_valid_value(v) => sup.is_valid_value(v) for all sub <= sup
+#[kani::proof]
+#[kani::unwind(3)]
+pub(crate) fn c17_valid_monotone_lists() {
+    let (msup, msub) = (any_wf_mask(2), any_wf_mask(2));
+    vk::assume(spec_subtype(true, msup, msub));
+    let (sup, sub) = (ty("Int", msup), ty("Int", msub));
+    fn chk(sub: &Type, sup: &Type, v: FieldValue) {
+        verif_cover!(sub.is_valid_value(&v), "valid for the subtype");
+        assert!(!sub.is_valid_value(&v) || sup.is_valid_value(&v), "valid list for a type => valid for every supertype");
+        core::mem::forget(v);
+    }
+    fn l1(a: FieldValue) -> FieldValue { FieldValue::List(Arc::new([a]) as Arc<[FieldValue]>) }
+    fn l2(a: FieldValue, b: FieldValue) -> FieldValue { FieldValue::List(Arc::new([a, b]) as Arc<[FieldValue]>) }
+    let int = || FieldValue::Int64(vk::any_i64());
+    match vk::any_u8() {
+        0 => chk(&sub, &sup, FieldValue::List(Arc::new([]) as Arc<[FieldValue]>)),
+        1 => chk(&sub, &sup, l1(FieldValue::Null)),
+        2 => chk(&sub, &sup, l1(int())),
+        3 => chk(&sub, &sup, l2(FieldValue::Null, FieldValue::Null)),
+        4 => chk(&sub, &sup, l2(FieldValue::Null, int())),
+        5 => chk(&sub, &sup, l2(int(), FieldValue::Null)),
+        6 => chk(&sub, &sup, l2(int(), int())),
+        7 => chk(&sub, &sup, l1(l1(FieldValue::Null))),
+        8 => chk(&sub, &sup, l1(l1(int()))),
+        _ => chk(&sub, &sup, l2(l1(int()), FieldValue::Null)),
+    }
+    core::mem::forget((sup, sub));
+}
 
 // @harness c17_negative_control tier=quick kind=complete expect=fail
 // @ob (control) claims a nullable parent is a scalar subtype of its non-null version: must FAIL
